@@ -293,6 +293,95 @@ fn tie_strings(l: Layout, tier: Tier) -> Vec<(u32, String)> {
             }
         }
     }
+    // limb-carry boundaries of the two-word decimal fraction path (128-bit types with more than 64 fractional
+    // bits): the parser splits the first 54 fractional digits into hi (27 digits) and lo (27 digits) and forms
+    // hi * 10^27 + lo in two 128-bit words; the low word carries iff lo >= t, t = j * 2^128 mod 10^27, for
+    // hi = floor(j * 2^128 / 10^27). Literals with lo = t - 1, t, t + 1, the largest lo, and the shortest
+    // (28-digit) literal on either side of the carry, for small, middle and the largest j.
+    if l.w == 128 && l.frac > 64 {
+        let p27 = ZN::<8>::from_u128(10u128.pow(27));
+        let jmax: u128 = ZN::<8>::from_u128(10u128.pow(27)).mul(p27).divrem_trunc(ZN::<8>::pow2(128)).0.low128();
+        let mut js: Vec<u128> = vec![1, 2, 3, 7, 1000, 1_000_000_007, jmax / 3, jmax / 2, jmax - 1, jmax];
+        if tier == Tier::Thorough {
+            js.extend((0..64u32).map(|i| (jmax >> i).max(1)));
+            js.extend((4..400u128).map(|i| i * i * i));
+        }
+        js.sort();
+        js.dedup();
+        for j in js {
+            let (q, t) = ZN::<8>::from_u128(j).mul(ZN::<8>::pow2(128)).divrem_trunc(p27);
+            let (hi, t) = (q.low128(), t.low128());
+            if t == 0 || hi >= 10u128.pow(27) {
+                continue;
+            }
+            let mut los = vec![t - 1, t, 10u128.pow(27) - 1];
+            if t + 1 < 10u128.pow(27) {
+                los.push(t + 1);
+            }
+            for lo in los {
+                let body = format!("{:027}{:027}", hi, lo);
+                for tail in ["", "5", "000000001"] {
+                    out.push((10, format!("0.{}{}", body, tail)));
+                    if l.signed {
+                        out.push((10, format!("-0.{}{}", body, tail)));
+                    }
+                }
+            }
+            // 28 digits: lo = d * 10^26
+            let d = (t + 10u128.pow(26) - 1) / 10u128.pow(26);
+            for dd in [d.saturating_sub(1), d, 9] {
+                if dd <= 9 {
+                    out.push((10, format!("0.{:027}{}", hi, dd)));
+                }
+            }
+        }
+    }
+    // integers that are an in-range value plus a multiple of the modulus of some parsing word: v + M with
+    // M = 2^n (n = integer bits and every word width at least as wide) or radix^k (k = a word width or one more:
+    // radix^k is a multiple of 2^k, so only the last k digits determine the wrapped value, while the overflow
+    // verdict depends on the digits before them)
+    {
+        let ib = l.int_bits();
+        let top: ZN<8> = if ib == 0 { ZN::<8>::ZERO } else { ZN::<8>::pow2(ib - l.signed as u32).sub(ZN::<8>::one()) };
+        let mut vs = vec![ZN::<8>::ZERO, ZN::<8>::one(), ZN::<8>::from_u64(5), top];
+        if !top.is_zero() {
+            vs.push(top.sub(ZN::<8>::one()));
+        }
+        let words: Vec<u32> = [8u32, 16, 32, 64, 128].into_iter().filter(|w| *w >= ib).collect();
+        for radix in [10u32, 2, 8, 16] {
+            let mut ms: Vec<ZN<8>> = vec![];
+            if ib > 0 {
+                ms.push(ZN::<8>::pow2(ib));
+            }
+            let per_digit = match radix { 2 => 1, 8 => 3, 16 => 4, _ => 4 };
+            for &w in &words {
+                ms.push(ZN::<8>::pow2(w));
+                ms.push(ZN::<8>::pow2(w).mul_small(3));
+                for k in [w, w + 1] {
+                    if k * per_digit > 440 {
+                        continue;
+                    }
+                    let mut p = ZN::<8>::one();
+                    for _ in 0..k {
+                        p = p.mul_small(radix as u64);
+                    }
+                    ms.push(p);
+                    ms.push(p.mul_small(7));
+                }
+            }
+            for m in &ms {
+                for v in &vs {
+                    let z = v.add(*m);
+                    for tail in ["", ".5"] {
+                        let tail = match radix { 2 => tail.replace('5', "1"), 8 => tail.replace('5', "4"), 16 => tail.replace('5', "8"), _ => tail.to_string() };
+                        let s = format!("{}{}", to_radix_string(z, radix), tail);
+                        out.push((radix, s.clone()));
+                        out.push((radix, format!("-{}", s)));
+                    }
+                }
+            }
+        }
+    }
     out
 }
 
